@@ -29,4 +29,4 @@ Deliver in {out}/ :
   - patch.diff : `git -C {wt} diff -- src` of the breaking change ONLY (no demo in it)
   - the demonstration file(s) copied there (e.g. seed_demo.rs) plus demo.md saying where it goes in the tree and the exact command to run it
   - meta.json : {{"property": "{pid}", "summary": "...what the change does...", "needs_to_manifest": "...the specific input/schedule/fault/sequence...", "ran": ["commands you ran and their outcome: baseline tests pass, tests pass with change, demo passes without change, demo fails with change"]}}
-Confirm all four facts yourself by running them (stash/unstash the change with `git -C {wt} stash` / `git -C {wt} stash pop`, or apply/reverse the patch). Leave the worktree with your change applied and the demo file present. Remove large build output you no longer need is NOT necessary; I'll clean up. Be economical: do not explore more than you need. Finish with a 5-line summary.""")
+Confirm all four facts yourself by running them (toggle the change with `git -C {wt} apply -R {out}/patch.diff` / `git -C {wt} apply {out}/patch.diff`; do NOT use `git stash`: the stash is shared with other worktrees of this repository). Leave the worktree with your change applied and the demo file present. Remove large build output you no longer need is NOT necessary; I'll clean up. Be economical: do not explore more than you need. Finish with a 5-line summary.""")
